@@ -27,13 +27,13 @@ Trace == ndJsonDeserialize("trace.ndjson")
 Ev == Trace[l]
 
 Base == [dk |-> "raw", ck |-> "raw", enable |-> TRUE, force |-> FALSE, forceIn |-> FALSE, provide |-> 3, ia |-> 0,
-         keymode |-> "same", selpol |-> "preferRC4", trunc |-> FALSE]
+         keymode |-> "same", selpol |-> "preferRC4", trunc |-> FALSE, loose |-> FALSE]
 
 ScOf(e) ==
     IF e.op = "HS"
-    THEN [Base EXCEPT !.provide = e.provide, !.ia = e.ia, !.keymode = e.keymode, !.selpol = e.selpol]
+    THEN [Base EXCEPT !.provide = e.provide, !.ia = e.ia, !.keymode = e.keymode, !.selpol = e.selpol, !.loose = e.loose = 1]
     ELSE [dk |-> e.dk, ck |-> e.ck, enable |-> e.enable = 1, force |-> e.force = 1, forceIn |-> e.forceIn = 1,
-          provide |-> e.provide, ia |-> e.ia, keymode |-> e.keymode, selpol |-> e.selpol, trunc |-> e.trunc = 1]
+          provide |-> e.provide, ia |-> e.ia, keymode |-> e.keymode, selpol |-> e.selpol, trunc |-> e.trunc = 1, loose |-> e.loose = 1]
 
 \* first-read size observed on the transport; policy lines (kernel TCP) do not observe it - any value gives the
 \* same outcome (checked exhaustively by MC_MSE), 96 is used
@@ -62,12 +62,14 @@ TrRun ==
     /\ UNCHANGED <<l, viol, ph>>
 
 OK(x) == x = "ok"
+\* a hostile scripted receiver that "completes" alone is not under any obligation
+BOK(e) == OK(e.rb) /\ (sc.loose => OK(e.ra))
 ModelOK == d.res = "ok" /\ c.res = "ok"
 
 \* ---- one handshake between bare streams
 JudgeHS(e) ==
     LET aok == OK(e.ra)
-        bok == OK(e.rb)
+        bok == BOK(e)
     IN
     IF sc.ia > MaxIA /\ aok THEN "C12.payload"                       \* @obligation C12.payload
     ELSE IF sc.keymode # "same" /\ (aok \/ bok) THEN "C12.wrongkey"  \* @obligation C12.wrongkey
@@ -89,7 +91,7 @@ JudgeHS(e) ==
 \* acceptor was seen in clear on the wire of the last connection; natt = connections made by the dialer.
 JudgePOL(e) ==
     LET aok == OK(e.ra)
-        bok == OK(e.rb)
+        bok == BOK(e)
     IN
     IF sc.dk = "rain" /\ sc.force /\ (e.natt > 1 \/ (aok /\ (e.ca # RC4 \/ e.wab = 1 \/ e.wba = 1)))
     THEN "C12.forced.out"                                            \* @obligation C12.forced.out
